@@ -1,6 +1,7 @@
 package mon
 
 import (
+	"strings"
 	"bytes"
 	"fmt"
 
@@ -28,11 +29,42 @@ func nameBearing() []*model.Layout {
 }
 
 // genPoolMsg draws a message whose names come from a small pool (shared suffixes, case variants).
-func genPoolMsg(g *model.Gen, nrec int) *model.Msg {
+func genPoolMsg(g *model.Gen, nrec int) *model.Msg { return genPoolMsgFrom(g, nrec, nil) }
+
+// specialUseSuffixes are the names resolvers, responders and servers treat specially (RFC 6761, 6762,
+// 6763, 7686, 8375, 9462, reverse trees): code that makes an exception for a name makes it for one of these.
+var specialUseSuffixes = []string{"local", "arpa", "in-addr.arpa", "ip6.arpa", "home.arpa", "resolver.arpa", "_tcp.local", "_udp.local", "_dns-sd._udp.local", "_services._dns-sd._udp.local",
+	"localhost", "invalid", "test", "onion", "example", "example.com", "254.169.in-addr.arpa", "8.e.f.ip6.arpa", "10.in-addr.arpa", "ipv4only.arpa", "_dns.resolver.arpa", "alt", "internal"}
+
+func specialUsePool(g *model.Gen) []model.Name {
+	var pool []model.Name
+	for k := 2 + g.R.IntN(3); k > 0; k-- {
+		var n model.Name
+		for _, l := range strings.Split(specialUseSuffixes[g.R.IntN(len(specialUseSuffixes))], ".") {
+			b := []byte(l)
+			if g.R.IntN(3) == 0 { // Office.LOCAL: any letter case
+				for i, c := range b {
+					if c >= 'a' && c <= 'z' && g.R.IntN(2) == 0 {
+						b[i] = c - 32
+					}
+				}
+			}
+			n = append(n, b)
+		}
+		pool = append(pool, n)
+	}
+	return pool
+}
+
+func genPoolMsgFrom(g *model.Gen, nrec int, pool []model.Name) *model.Msg {
 	nb := nameBearing()
 	all := model.LayoutList
 	m := &model.Msg{ID: uint16(g.Uint(16)), Bits: uint16(g.Uint(16)) &^ 0x0200}
-	g.MakePool(2 + g.R.IntN(4))
+	if pool != nil {
+		g.Pool = pool
+	} else {
+		g.MakePool(2 + g.R.IntN(4))
+	}
 	nq := []int{1, 1, 1, 2, 3, 4, 0}[g.R.IntN(7)]
 	for i := 0; i < nq; i++ {
 		m.Q = append(m.Q, model.Question{Name: g.Name(), Type: uint16(1 + g.R.IntN(60)), Class: 1})
@@ -216,6 +248,19 @@ func c04Small(w *core.W, j int) {
 	}
 }
 
+// c04SpecialUse: owners and targets below special-use names (mDNS/DNS-SD under local., the reverse
+// trees, localhost, ...) in any letter case: the rules of the property know no exception by name.
+func c04SpecialUse(w *core.W, j int) {
+	g := model.NewGen(w.Rng(j))
+	g.NoHuge = true
+	for k := 0; k < 6; k++ {
+		g.Plain = k%2 == 0
+		m := genPoolMsgFrom(g, g.Len(1, 12), specialUsePool(g))
+		w.Count("special_use_messages", 1)
+		c04Check(w, m, "special-use")
+	}
+}
+
 // c04Large: messages of 300..3000 records that cross offset 16384.
 func c04Large(w *core.W, j int) {
 	g := model.NewGen(w.Rng(j))
@@ -243,6 +288,7 @@ func init() {
 	plan, run := sections(
 		section{"small", tiered(3000, 60000), c04Small},
 		section{"large", tiered(60, 1500), c04Large},
+		section{"special-use-names", tiered(600, 12000), c04SpecialUse},
 		concurrentSection("C04"),
 	)
 	core.Register(&core.Monitor{
@@ -251,6 +297,6 @@ func init() {
 			"oracle = strict model decoder (expands names, logs every pointer with position/target/field) compared byte-exact with the uncompressed packing; model-compressed input with pointers in every type's RDATA; the same message packed again after a failing and after a succeeding Pack of a related message with shifted offsets must give identical octets; " +
 			"the same operations called from 8 goroutines at once give the results they give alone; non-trivial = distinct message whose compressed form is shorter",
 		Assumptions: []string{"RFC 3597 s.4 set = NS MD MF CNAME SOA MB MG MR PTR MINFO MX"},
-		MinObserved: []string{"messages", "pointers", "messages_over_16384", "input_pointers_in_other_rdata", "history_checks"},
+		MinObserved: []string{"messages", "pointers", "messages_over_16384", "input_pointers_in_other_rdata", "history_checks", "special_use_messages"},
 	})
 }
